@@ -9,7 +9,7 @@
    C::Register::try_from in CfiStackWalker). *)
 From Coq Require Import Lia ZArith List.
 From RM Require Import C05.Model C05.ModelTail C05.Proofs C05.ProofsTail C05.Driver C05.ProofsModules C05.ProofsCfi C05.ProofsFunction C05.ProofsValid.
-From RM Require C06.Model C11.Model C11.Proofs2.
+From RM Require C06.Model C08.Model C09.Grammar C11.Model C11.Proofs2.
 Import ListNotations.
 Open Scope Z_scope.
 
@@ -458,7 +458,7 @@ Print Assumptions c05_scan_accepted.
    driver is the generated `<arch>_instr_pre_ok`; amd64 / arm64 frame-pointer frames use the same generated is_non_canonical;
    the driver's symbol-based test IS the generated body of lib.rs instruction_seems_valid_by_symbols (over C08's module lookup
    and the case's symbol files) and reads: ra - 1 (saturating) is not 0, lies in a module, and that module has no symbol file
-   or a function covering ra - 1. *)
+   or a function with a non-empty name covering ra - 1. *)
 Theorem c05_instr_valid_pinned :
   (forall archid x, a_pre_ok (arch_of archid) x = pre_ok_of archid x) /\
   (forall x, a_canon_fp amd64 x = negb (amd64_is_non_canonical x)) /\
@@ -473,7 +473,10 @@ Theorem c05_instr_valid_pinned :
            | Some (b, _, Some s) =>
                let addr := i - b in
                match s_table s with
-               | Some t => match table_fill t addr with Some _ => true | None => false end
+               | Some t => match C08.Model.rm_get (C09.Grammar.t_funcs t) addr with
+                           | Some fn => negb (rle_empty (C09.Grammar.sf_name fn))
+                           | None => false
+                           end
                | None => (0 <? s_func_size s) && (s_func_lo s <=? addr) && (addr <? s_func_lo s + s_func_size s)
                end
            end)).
@@ -512,6 +515,37 @@ Proof.
   destruct (Q1 f Hin T) as [_ [G E]]. exact (conj (Q2 f Hin T) (conj G E)).
 Qed.
 Print Assumptions c05_scan_in_module.
+
+(* ... and with the symbol lookup inside: instruction_seems_valid_by_symbols (generated) over C08's module lookup and C11's
+   model of SymbolFile::fill_symbol ([c11_fill]: files i = None is a module without symbol file; C11 keeps names abstract,
+   [empty_name] tells which is the empty string).  For every walk (any architecture description with arch_ok, any CFI oracle
+   meeting the contract, both profiles, any fuel): a frame marked `scan` has a return address ra such that ra - 1 lies in
+   module i = [b, b + s), and either that module has no symbol file or fill_symbol (C11.Model.symbolize) set a function with
+   a NON-EMPTY name which is a FUNC record of that file with b + addr <= ra - 1 < b + addr + size, or a PUBLIC record at or
+   below ra - 1. *)
+Theorem c05_scan_function_covers :
+  forall p q empty_name a os mem max_module_addr cfi_walk (mods : list modspec) (files : Z -> option C11.Model.raw_file),
+    arch_ok a -> mem_wf mem ->
+    (forall callee gc fwd r v, cfi_walk callee gc fwd = Some (r, v) -> regs_wf a r) ->
+    Forall (fun m => 0 <= fst (fst m) /\ 0 <= snd (fst m)) mods ->
+    (forall i rf, files i = Some rf -> C11.Proofs2.wf_file rf) ->
+    forall fuel r v f0 rest, regs_wf a r ->
+      walk_stack current_code p a os mem (d_module_at mods) max_module_addr cfi_walk
+                 (lib_isv_by_symbols (d_module_at mods) (c11_fill q empty_name mods files)) fuel r v = Ret (f0 :: rest) ->
+      Forall (fun f => f_trust f = TScan ->
+        exists i b s y, d_module_at mods (f_resume f - 1) = Some i /\ nth_error mods (Z.to_nat i) = Some (b, s, y) /\
+          b <= f_resume f - 1 < b + s /\
+          (files i = None \/
+           exists rf o name base ps, files i = Some rf /\ C11.Model.symbolize q rf b (f_resume f - 1) = Ret o /\
+             C11.Model.o_func o = Some (name, base, ps) /\ empty_name name = false /\ base <= f_resume f - 1 /\
+             ((exists fr, In fr (C11.Model.rf_funcs rf) /\ name = C11.Model.fr_name fr /\ base = b + C11.Model.fr_addr fr /\
+                          f_resume f - 1 < base + C11.Model.fr_size fr)
+              \/ (exists pb, In pb (C11.Model.rf_publics rf) /\ name = C11.Model.p_name pb /\ base = b + C11.Model.p_addr pb)))) rest.
+Proof.
+  intros p q en a os mem mm cw mods files Ha Hm Hc Hw Hfiles fuel r v f0 rest Hr H.
+  exact (walk_scan_functions p q en a os mem mm cw mods files Ha Hm Hc Hw Hfiles fuel r v f0 rest Hr H).
+Qed.
+Print Assumptions c05_scan_function_covers.
 
 (* arm64.rs ptr_auth_strip statement by statement as the source has it (`(1 << 47) - 1`, by_addr().next_back(),
    saturating_add, u64::max, checked_next_power_of_two, `high_bit - 1`, `!0`, `ptr & mask`; Gen/UnwindTail.v): for every
@@ -596,3 +630,17 @@ Example c05_nonvacuous_strip :
   arm64_ptr_auth_strip_src Release (Some (2 ^ 48, 1048576)) (2 ^ 60 + 2 ^ 48 + 4198400) = Ret (2 ^ 48 + 4198400) /\
   arm64_ptr_auth_strip_src Debug (Some (2 ^ 64 - 4096, 8192)) (2 ^ 64 - 1) = Ret (2 ^ 64 - 1).
 Proof. repeat split; vm_compute; reflexivity. Qed.
+
+(* c05_scan_function_covers is not vacuous: with the module and symbol file of c05_nonvacuous_function, the generated test over
+   C11's fill_symbol accepts a return address whose predecessor is inside FUNC 100 100, rejects one just past that function,
+   rejects everything when that function's name is the empty string, and accepts both when the module has no symbol file *)
+Example c05_nonvacuous_scan_function :
+  (forall i rf, (fun _ : Z => Some nv_file) i = Some rf -> C11.Proofs2.wf_file rf) /\
+  lib_isv_by_symbols (d_module_at nv_fmods) (c11_fill Debug (fun _ => false) nv_fmods (fun _ => Some nv_file)) 127546570047789 = true /\
+  lib_isv_by_symbols (d_module_at nv_fmods) (c11_fill Debug (fun _ => false) nv_fmods (fun _ => Some nv_file)) (127546570047488 + 513) = false /\
+  lib_isv_by_symbols (d_module_at nv_fmods) (c11_fill Debug (fun n => n =? 102) nv_fmods (fun _ => Some nv_file)) 127546570047789 = false /\
+  lib_isv_by_symbols (d_module_at nv_fmods) (c11_fill Debug (fun _ => false) nv_fmods (fun _ => None)) (127546570047488 + 513) = true.
+Proof.
+  split; [intros i rf H; inversion H; subst; exact (proj1 c05_nonvacuous_function)|].
+  repeat split; vm_compute; reflexivity.
+Qed.
